@@ -11,6 +11,8 @@ M = [
  ("r08_rest_url_totp_ignores_period", ["C18"], H, "\t\t\turl, err := otp.GenerateTOTPURL(otp.URLParam{\n\t\t\t\tIssuer:      req.Issuer,\n\t\t\t\tSecret:      req.Secret,\n\t\t\t\tPeriod:      req.Period,\n", "\t\t\turl, err := otp.GenerateTOTPURL(otp.URLParam{\n\t\t\t\tIssuer:      req.Issuer,\n\t\t\t\tSecret:      req.Secret,\n"),
  ("r09_rest_secret_echoes_request_algorithm", ["C18"], H, "\t\t\tAlgorithm: algo.String(),", "\t\t\tAlgorithm: string(ctx.QueryArgs().Peek(\"algorithm\")),"),
  ("r10_rest_ocra_validate_structured_suite_ignores_hash", ["C18"], H, "\t\tok, _ := otp.ValidateOCRA(req.Secret, req.Code, suite, input)", "\t\tif sc, isCfg := suite.(otp.RawSuite); isCfg && req.RawSuite == \"\" {\n\t\t\tsc.Hash = otp.SHA1\n\t\t\tsuite = sc\n\t\t}\n\t\tok, _ := otp.ValidateOCRA(req.Secret, req.Code, suite, input)"),
+ ("r12_rest_totp_generate_any_method", ["C19"], H, "\t\tif !ctx.IsPost() {\n\t\t\twriteError(ctx, fasthttp.StatusMethodNotAllowed, \"method not allowed\", map[string]any{\n\t\t\t\t\"allowed_method\": fasthttp.MethodPost,\n\t\t\t})\n\t\t\treturn\n\t\t}\n\n\t\tvar req otpGenerateReq", "\t\tvar req otpGenerateReq"),
+ ("r13_rest_unknown_path_200", ["C19"], "internal/app/api/routers.go", "\t\tctx.SetStatusCode(fasthttp.StatusNotFound)\n", "\t\tctx.SetStatusCode(fasthttp.StatusOK)\n"),
  ("r11_rest_hotp_generate_counter_32bit", ["C18"], H, "\t\tcode, err := otp.GenerateHOTP(req.Secret, req.Counter, &otp.Param{", "\t\tcode, err := otp.GenerateHOTP(req.Secret, uint64(uint32(req.Counter)), &otp.Param{"),
 ]
 W = "wasm/main.go"
@@ -42,4 +44,4 @@ EXTRA = {
  "t08_hasprefix_fast_reject": (V, "import (\n\t\"crypto/subtle\"\n)", "import (\n\t\"crypto/subtle\"\n\t\"strings\"\n)"),
  "t09_ordering_compare": (V, "import (\n\t\"crypto/subtle\"\n)", "import (\n\t\"crypto/subtle\"\n\t\"strings\"\n)"),
 }
-FIRST = {"r05_rest_decode_error_status_200"}
+FIRST = {"r05_rest_decode_error_status_200", "r12_rest_totp_generate_any_method"}
